@@ -3,7 +3,7 @@ import core
 LEVEL = 'exploration'
 RULE = ('exactness: every instruction of every pclntab function of the listed Go binaries is decoded by goom\'s x86 decoder and by '
         'upstream golang.org/x/arch/x86asm in lock-step and compared (Len, mnemonic, PCRel, PCRelOff); totality: random byte strings of '
-        'length 1-16 and bit-mutated real instruction starts are decoded under recover and checked structurally; the entry point goom itself uses, bytecode.ParseIns, on the first n bytes of real functions given as slices with capacity far beyond their length (never beyond the supplied bytes, same answer as for a private copy); goom's extent scan bytecode.GetFuncSize over 4000 functions of the running binary against the same scan made with the reference decoder; '
+        'length 1-16 and bit-mutated real instruction starts are decoded under recover and checked structurally; the entry point goom itself uses, bytecode.ParseIns, on the first n bytes of real functions given as slices with capacity far beyond their length (never beyond the supplied bytes, same answer as for a private copy); the extent scan bytecode.GetFuncSize over 4000 functions of the running binary against the same scan made with the reference decoder; '
         'distinct = distinct mnemonics on which both decoders agreed')
 
 
